@@ -137,6 +137,8 @@ type target struct {
 	Build    func(fix uint64) (fixture, error)
 	// FixSeeds: the fixture variants worth exploring (Case.Fix is taken modulo).
 	Fixes int
+	// Heavy: every state-changing input costs a database reopen (~30 ms): the quick tier draws fewer.
+	Heavy bool
 	// AllocFactor: bytes of allocation allowed per byte of input + reply on top of the 4 MiB base (default 64).
 	AllocFactor int
 }
@@ -517,7 +519,11 @@ func genCase(rt *rapid.T) Case {
 	}
 	t := targets[name]
 	c := Case{Target: name, Fix: uint64(rapid.IntRange(0, max(t.Fixes, 1)-1).Draw(rt, "fix"))}
-	n := rapid.IntRange(8, vstat.Pick(24, 40)).Draw(rt, "n")
+	maxN := vstat.Pick(24, 40)
+	if t.Heavy {
+		maxN = vstat.Pick(12, 30)
+	}
+	n := rapid.IntRange(6, maxN).Draw(rt, "n")
 	sem := semanticKinds(t)
 	for i := 0; i < n; i++ {
 		c.Ins = append(c.Ins, genIn(rt, t, sem))
@@ -575,17 +581,20 @@ func TestSweep(t *testing.T) {
 				sem := fx.Semantic()
 				fx.Close()
 				seen := map[uint64]bool{}
+				seenV := map[int]bool{}
 				for si, s := range seeds {
 					h := vstat.Hash(s.Data)
-					first := !seen[h]
+					first := !seen[h] && fix == 0 // other fixture variants see the same bytes: sparser byte-level sweep there
 					seen[h] = true
+					firstV := !seenV[s.V]
+					seenV[s.V] = true
 					k++
 					if k%shards != shard {
 						continue
 					}
 					semHere := sem
-					if !first {
-						semHere = nil // semantic mutants do not depend on the base bytes: once per distinct message
+					if !firstV {
+						semHere = nil // semantic mutants depend on the entry-point variant of the base, not on its bytes
 					}
 					for _, c := range sweepCases(name, uint64(fix), si, s, semHere, first) {
 						if !yield(c) {
@@ -600,19 +609,23 @@ func TestSweep(t *testing.T) {
 
 func sweepCases(name string, fix uint64, si int, s seed, sem []string, firstOfData bool) []Case {
 	var ins []In
+	heavy := targets[name].Heavy && !vstat.Thorough()
 	n := len(s.Data)
 	ins = append(ins, In{Base: si, Kind: "valid"})
 	// truncation at every offset (sampled above a cap); bit patterns at sampled offsets
 	step := 1
-	if maxPos := vstat.Pick(400, 4000); n > maxPos {
+	if maxPos := vstat.Pick(160, 4000); n > maxPos {
 		step = (n + maxPos - 1) / maxPos
 	}
 	fstep := 1
-	if maxPos := vstat.Pick(48, 1200); n > maxPos {
+	if maxPos := vstat.Pick(24, 1200); n > maxPos {
 		fstep = (n + maxPos - 1) / maxPos
 	}
 	if !firstOfData {
 		step, fstep = step*8, fstep*8 // the same bytes were swept through another entry-point variant already
+	}
+	if heavy {
+		step, fstep = step*3, fstep*3
 	}
 	for pos := 0; pos < n; pos += step {
 		ins = append(ins, In{Base: si, Kind: "trunc", A: pos})
@@ -623,7 +636,10 @@ func sweepCases(name string, fix uint64, si int, s seed, sem []string, firstOfDa
 		}
 	}
 	paths := mutate.IdxPaths(s.Data, 6, 400)
-	maxOps := vstat.Pick(160, 3000)
+	maxOps := vstat.Pick(80, 3000)
+	if heavy {
+		maxOps = 16
+	}
 	var opIns []In
 	for pi, p := range paths {
 		inner, _ := mutate.GetAtIdx(s.Data, p)
@@ -643,8 +659,12 @@ func sweepCases(name string, fix uint64, si int, s seed, sem []string, firstOfDa
 	}
 	ins = append(ins, opIns...)
 	for _, k := range sem {
-		for a := 0; a < vstat.Pick(6, 24); a++ {
-			for cc := 0; cc < 4; cc++ {
+		na := vstat.Pick(9, 36)
+		if heavy {
+			na = 3
+		}
+		for a := 0; a < na; a++ {
+			for cc := 0; cc < vstat.Pick(2, 4); cc++ {
 				ins = append(ins, In{Base: si, Kind: k, A: a, B: a*7 + cc, C: cc})
 			}
 		}
